@@ -294,7 +294,8 @@ mp::ArrayRef<double> SimBackend::Ray() {
   if (script_str("rays", "tags") == "none") return {};
   auto r = VarVec("ray_len", 50000.0);
   auto mv = GetValuePresolver().PostsolveSolution({r});
-  return mv.GetVarValues()();
+  std::vector<double> uray = mv.GetVarValues()();
+  return uray;   // owning ArrayRef
 }
 
 mp::ArrayRef<double> SimBackend::DRay() {
